@@ -115,7 +115,7 @@ ADDED = {
  "C06": "Also: the long-table entry is removed under the deadline read before the update; re-arm only after the tombstone test; recycled long-wait buckets are re-initialised. The millisecond sweep must consult a field an update rewrites before ending a hold (known finding: it does not). A millisecond period handed to the second wheels is rounded up, not truncated (defect repaired).",
  "C07": "Also: log-file lists are snapshot-first; UnLock clears the persisted mark only with removal. A pooled Lock object enters or leaves the pool with its persisted mark cleared. A hold's persistence mode is never copied from another hold (known finding: later holders of a shared key inherit the first holder's mode). The expiry written to and read from the log is reduced by the age of the hold for every granularity (millisecond holds: defect repaired).",
  "C08": "Also: values buffered only with records; readers never return io.ReadFull's error unmapped; oversized values written directly only with the record buffer empty. Readers return a constructed error only about a completely read item; the newest append file is cut back to whole records before appending (three reproduced crash-recovery defects were repaired). Something must truncate the value file after a torn value (known finding: nothing does). A Truncate in AofFile.Open is made on files opened with O_APPEND, or a Seek follows. ReadTail reads the last whole record (defect repaired: a follower refused to start on a torn file).",
- "C09": "Also: receive ring >= queue capacity + 2; live append file touched only under the append mutex (a reproduced race was repaired); the ring examines all 16 id bytes. Pop tests continuity for every cursor and a cursor that does not get its position from the ring is positioned at ring.seq-1 before the answer (defect repaired: full transfer from an empty ring that overflows before the first Pop).",
+ "C09": "Also: receive ring >= queue capacity + 2; live append file touched only under the append mutex (a reproduced race was repaired); the ring examines all 16 id bytes. Pop tests continuity for every cursor and a cursor that does not get its position from the ring is positioned at ring.seq-1 before the answer (defect repaired: full transfer from an empty ring that overflows before the first Pop). The sender writes a record directly to the stream only with its batch buffer empty (flow-graph paths of one loop iteration, excluded by linear entailment over their size tests).",
  "C10": "Also: the follower's only local answer needs the concurrent-check flag and Timeout == 0; replayed holds are marked persisted independent of role. Server.handle re-dispatches the request a protocol object had already read when the role changed under it. The wake-up pass must test the role before granting (known finding: it does not).",
  "C11": "Also: a new ack table is recounted after publication; the queued timeout stays armed on the ack-pending wake-up path. ProcessLeaderPushLock tracks or fails a pending ack request on every return. The rollback clears the logged mark of every value object it restores. While the leader's flush and the followers' acknowledgements count down one counter, the required count exceeds the number of followers (known finding: majority mode with two or more followers does not need the leader's own write).",
  "C12": "Also: the outstanding-commit marker is cleared only at a closed list of points. The log-position comparator weighs the id bytes the way the log writes them, file index major (a reproduced ordering defect was repaired). The log-file list LoadMaxAofId scans for a member's restart position is snapshot-first.",
